@@ -18,11 +18,10 @@ Definition f6a_partdisk : list finding := [
   ("storage.partDisk.size",   "storage.fileDisk.NewPart",  "storage.partDisk.Reader")
 ].
 
-(* F6b - muxerStream.close() sets closed without the muxer mutex; handlers read it under the mutex *)
-Definition f6b_closed : list finding := [
-  ("muxerStream.closed", "muxerStream.close", "muxerStream.handleMediaPlaylist");
-  ("muxerStream.closed", "muxerStream.close", "muxerStream.rotateParts.func2")
-].
+(* F6b - muxerStream.close() set closed without the muxer mutex while handlers read it under the mutex:
+   REPAIRED in /repo (c04d523: Close marks the streams closed under the mutex); its two pairs are gone
+   from the regenerated table, as [c08_unsafe_exactly] demands. *)
+Definition f6b_closed : list finding := [].
 
 (* F6c - Write* stores new codec parameters into the user's Track.Codec outside the mutex; the
    multivariant playlist handler reads them under the mutex *)
